@@ -798,6 +798,74 @@ def rule_intrinsic_modifiers(chk):
 
 
 
+
+def rule_param_variables(chk):
+    """parse_function_body read on a model function: for every parameter (plain, const, array-of-const; in / out / inout;
+    precise) the local variable that stands for it in the body is registered, and entered into the scope, with the type
+    that was written on the parameter (modifiers included - that is what makes `const` parameters read-only), and the
+    FunctionParam of the implementation carries the same type, input modifier, precise flag and the variable's id."""
+    import interp as I
+    f = chk.facts
+    fn = f.fn("parse_function_body", "rssl_typer")
+    if not fn:
+        return
+    ok = lambda v: I.Enum("Result", "Ok", {"0": v})
+    opt = lambda v: I.Enum("Option", "None") if v is None else I.Enum("Option", "Some", {"0": v})
+    loc = lambda v: I.Enum("Located", None, {"node": v, "location": I.Opaque("location")})
+    tid = lambda n: I.Enum("TypeId", None, {"0": n})
+
+    def deref(v):
+        return v.get() if isinstance(v, I.Ref) else v
+    # written type id -> the id with its outer modifier stripped (what the signature keeps)
+    STRIP = {3: 3, 1003: 3, 20: 20, 1020: 20, 2003: 3}
+    params = [("a", 3, "In", False), ("b", 1003, "In", False), ("c", 1020, "In", True), ("d", 3, "Out", False), ("e", 2003, "InOut", False), ("g", 20, "In", False)]
+    regs, scope, impl = [], [], []
+    ext = {"revisit_function": lambda a: (), "parse_function_attributes": lambda a: ok([]), "parse_statement_list": lambda a: ok([]),
+           "pop_scope_with_locals": lambda a: I.Enum("ScopedDeclarations", None, {"variables": []}),
+           "strip_param_type": lambda a: tid(STRIP[deref(a[0]).fields["0"]]), "get_type_name_short": lambda a: "type",
+           "parse_paramtype": lambda a: ok(I.Enum("ParsedParam", None, dict(deref(a[0]).fields["parsed"].fields))),
+           "register_local_variable": lambda a: regs.append(deref(a[1])) or I.Enum("VariableId", None, {"0": 100 + len(regs) - 1}),
+           "insert_variable": lambda a: scope.append((deref(a[1]).fields["node"], deref(a[2]).fields["0"], deref(a[3]).fields["0"])) or ok(()),
+           "set_implementation": lambda a: impl.append(deref(a[2])) or ()}
+    ast_params = [I.Enum("FunctionParam", None, {"parsed": I.Enum("ParsedParam", None, {
+        "name": loc(n), "type_id": tid(t), "input_modifier": I.Enum("InputModifier", im), "interpolation_modifier": opt(None), "precise": pr, "semantic": opt(None), "default_expr": opt(None)})})
+        for n, t, im, pr in params]
+    fd = I.Enum("FunctionDefinition", None, {"params": ast_params, "attributes": [], "body": opt([]), "name": loc("fn")})
+    sig = I.Enum("FunctionSignature", None, {"param_types": [I.Enum("ParamType", None, {"type_id": tid(STRIP[t]), "input_modifier": I.Enum("InputModifier", im)}) for _n, t, im, _p in params],
+                                             "non_default_params": len(params), "template_params": [], "return_type": I.Opaque("return type")})
+    ctx = I.Enum("Context", None, {"module": I.Enum("Module", None, {"variable_registry": I.Opaque("variable registry"), "function_registry": I.Opaque("function registry")})})
+    try:
+        r = I.Interp(f, max_depth=6, extern=ext).apply(fn, [fd, I.Enum("FunctionId", None, {"0": 1}), sig, ctx])
+    except I.Unknown as e:
+        if "panicking" in str(e):
+            chk.ob("C03.params/variables", False, "parse_function_body aborts on a function with const / out / precise parameters (%s)" % str(e)[:80], where(fn))
+        else:
+            chk.unreadable("C03.params/variables", "parse_function_body on the model function", str(e)[:100], where(fn))
+        return
+    bad = None
+    if not (isinstance(r, I.Enum) and r.variant == "Ok") or len(impl) != 1:
+        bad = "the model function is refused or its implementation is not stored (%s)" % (r,)
+    else:
+        ps = impl[0].fields.get("params") or []
+        if len(regs) != len(params) or len(scope) != len(params) or len(ps) != len(params):
+            bad = "%d parameters: %d variables registered, %d entered into the scope, %d in the implementation" % (len(params), len(regs), len(scope), len(ps))
+        for i, (n, t, im, pr) in enumerate(params):
+            if bad:
+                break
+            what = "parameter `%s` (%s%s type %d)" % (n, "precise " if pr else "", im, t)
+            if regs[i].fields["type_id"].fields["0"] != t:
+                bad = "%s: its variable is registered with type %d - the modifiers written on the parameter are lost, so a `const` parameter can be assigned to or passed as out" % (what, regs[i].fields["type_id"].fields["0"])
+            elif scope[i] != (n, 100 + i, t):
+                bad = "%s: entered into the scope as %s, must be (name, its variable, the written type) = %s" % (what, scope[i], (n, 100 + i, t))
+            elif regs[i].fields["precise"] is not pr or regs[i].fields["storage_class"].variant != "Local":
+                bad = "%s: its variable is registered with precise=%s, storage %s" % (what, regs[i].fields["precise"], regs[i].fields["storage_class"].variant)
+            else:
+                p = ps[i].fields
+                got = (p["id"].fields["0"], p["param_type"].fields["type_id"].fields["0"], p["param_type"].fields["input_modifier"].variant, p["precise"])
+                if got != (100 + i, t, im, pr):
+                    bad = "%s: the implementation records (variable, type, modifier, precise) = %s, must be %s" % (what, got, (100 + i, t, im, pr))
+    chk.ob("C03.params/variables", bad is None, bad or "%d parameters: variable, scope entry and implementation agree with what was written" % len(params), where(fn), sample={"parameters": len(params)})
+
 def run(chk):
     f = chk.facts
     rb, ru = rule_elab_eval(chk)
@@ -806,6 +874,7 @@ def run(chk):
     rule_stmt_eval(chk)
     rule_ctor_eval(chk)
     rule_intrinsic_modifiers(chk)
+    rule_param_variables(chk)
     if not rb:
         rule_assign(chk)
     if not ru:
